@@ -1698,3 +1698,9 @@ func lemmaSliceConcat(seq Sequence, c int) Sequence {
 //@   ensures !isnil(out) && len(bytesOf(out)) == s[1] - s[0]
 //@   ensures window: forall k in 0..s[1]-s[0]: bytesOf(out)[k] == old(bytesOf(seq)[s[0]+k])
 //@   assigns nothing
+//@ func (s Segment) Locate@reverse(seq Sequence) (out Sequence)
+//@   prop C08 C15 C05
+//@   requires !isnil(seq) && oldSeq(seq) && coord(len(bytesOf(seq))) && 0 <= s[1] && s[1] < s[0] && s[0] <= len(bytesOf(seq))
+//@   ensures !isnil(out) && len(bytesOf(out)) == s[0] - s[1]
+//@   ensures revcomp: forall k in 0..s[0]-s[1]: complOK(int(old(bytesOf(seq)[s[0]-1-k])), int(bytesOf(out)[k]))
+//@   assigns nothing
